@@ -231,9 +231,11 @@ _NOT = {"<": ">=", ">": "<=", "<=": ">", ">=": "<", "==": "!=", "!=": "=="}
 _FLIP = {"<": ">", ">": "<", "<=": ">=", ">=": "<=", "==": "==", "!=": "!="}
 
 
-def zero_relation(test, pol=True):
+def zero_relation(test, pol=True, ints=()):
     """`x < 0` (polarity applied) -> (text of x, "<"); None if the test is
-    not a comparison of something with the constant 0."""
+    not a comparison of something with the constant 0.  For a subject named
+    in `ints` (known to hold an integer) `x >= 1` is `x > 0`, `x <= -1` is
+    `x < 0`, `x < 1` is `x <= 0` and `x > -1` is `x >= 0`."""
     if not (isinstance(test, ast.Compare) and len(test.ops) == 1
             and type(test.ops[0]) in _REL):
         return None
@@ -243,21 +245,33 @@ def zero_relation(test, pol=True):
     def zero(e):
         return isinstance(e, ast.Constant) and e.value == 0 and \
             not isinstance(e.value, bool)
+
+    def unit(e):
+        t = U(e).replace("(", "").replace(")", "")
+        return {"1": 1, "-1": -1}.get(t)
     if zero(r):
         subj = U(l)
     elif zero(l):
         subj, rel = U(r), _FLIP[rel]
-    else:
-        return None
+    elif ints and (unit(r) is not None and U(l) in ints or
+                   unit(l) is not None and U(r) in ints):
+        if unit(r) is not None and U(l) in ints:
+            subj, k = U(l), unit(r)
+        else:
+            subj, k, rel = U(r), unit(l), _FLIP[rel]
+        rel = {(">=", 1): ">", ("<", 1): "<=", ("<=", -1): "<",
+               (">", -1): ">="}.get((rel, k))
+        if rel is None:
+            return None
     if not pol:
         rel = _NOT[rel]
     return subj, rel
 
 
-def zero_relations(conds):
+def zero_relations(conds, ints=()):
     out = set()
     for t, pol in conds:
-        r = zero_relation(t, pol)
+        r = zero_relation(t, pol, ints)
         if r is not None:
             out.add(r)
     return out
